@@ -137,6 +137,34 @@ func (e *effectEngine) fresh1(v ssa.Value) bool {
 			if fv, ok := v.X.(*ssa.FreeVar); ok {
 				return e.freeVarCellFresh(fv)
 			}
+			// load of a field of an object allocated in this function: fresh if every store to that
+			// field of that object in this function stores a fresh value (alloc := &T{used: make(…)};
+			// … alloc.used[k] = v)
+			if fa, ok := v.X.(*ssa.FieldAddr); ok {
+				if base, ok := fa.X.(*ssa.Alloc); ok && base.Referrers() != nil {
+					n, all := 0, true
+					for _, ref := range *base.Referrers() {
+						fa2, ok := ref.(*ssa.FieldAddr)
+						if !ok || fa2.Field != fa.Field || fa2.Referrers() == nil {
+							continue
+						}
+						for _, r2 := range *fa2.Referrers() {
+							if st, ok := r2.(*ssa.Store); ok && st.Addr == fa2 {
+								n++
+								if !e.fresh(st.Val) {
+									all = false
+								}
+							}
+						}
+					}
+					// the object must not have escaped to code that could store into the field:
+					// only field accesses, and calls of methods / functions of the module whose
+					// effects are accounted for separately
+					if n > 0 && all {
+						return true
+					}
+				}
+			}
 			// load of a field stored earlier in the same block with a fresh value
 			if fa, ok := v.X.(*ssa.FieldAddr); ok && v.Block() != nil {
 				for _, in := range v.Block().Instrs {
@@ -274,6 +302,17 @@ func (e *effectEngine) callFresh(call *ssa.Call, idx int) bool {
 	if callee == nil {
 		return false
 	}
+	// math/big: constructors return new values; a method that returns its receiver type returns
+	// the receiver (z.SetPrec(p), z.Add(x, y)), so the result is as fresh as the receiver
+	if callee.Pkg != nil && callee.Pkg.Pkg.Path() == "math/big" && idx == 0 {
+		if callee.Signature.Recv() == nil {
+			return strings.HasPrefix(callee.Name(), "New")
+		}
+		rt := callee.Signature.Recv().Type()
+		if _, isPtr := rt.(*types.Pointer); isPtr && callee.Signature.Results().Len() >= 1 && types.Identical(callee.Signature.Results().At(0).Type(), rt) && len(call.Call.Args) > 0 {
+			return e.fresh(call.Call.Args[0])
+		}
+	}
 	return e.returnsFresh(callee, idx)
 }
 
@@ -349,8 +388,62 @@ func globalBehind(v ssa.Value) *ssa.Global {
 		case *ssa.MakeInterface:
 			v = x.X
 			continue
+		case *ssa.Call:
+			// a function of the module that hands out a package-level object (constant.NewBool
+			// returns the singletons True / False)
+			if g := returnsGlobal(x.Call.StaticCallee(), 0); g != nil {
+				return g
+			}
+			return nil
+		case *ssa.Phi:
+			for _, e := range x.Edges {
+				if g := globalBehind(e); g != nil {
+					return g
+				}
+			}
+			return nil
 		}
 		return nil
+	}
+	return nil
+}
+
+var returnsGlobalMemo = map[*ssa.Function]*ssa.Global{}
+var returnsGlobalDone = map[*ssa.Function]bool{}
+
+// returnsGlobal: some return statement of fn yields an object loaded from a package-level
+// variable of the module.
+func returnsGlobal(fn *ssa.Function, depth int) *ssa.Global {
+	if fn == nil || len(fn.Blocks) == 0 || depth > 2 {
+		return nil
+	}
+	if returnsGlobalDone[fn] {
+		return returnsGlobalMemo[fn]
+	}
+	returnsGlobalDone[fn] = true
+	for _, b := range fn.Blocks {
+		if len(b.Instrs) == 0 {
+			continue
+		}
+		r, ok := b.Instrs[len(b.Instrs)-1].(*ssa.Return)
+		if !ok || len(r.Results) == 0 {
+			continue
+		}
+		v := r.Results[0]
+		if _, isPtr := v.Type().Underlying().(*types.Pointer); !isPtr {
+			continue
+		}
+		var g *ssa.Global
+		switch x := v.(type) {
+		case *ssa.Call:
+			g = returnsGlobal(x.Call.StaticCallee(), depth+1)
+		default:
+			g = globalBehind(v)
+		}
+		if g != nil {
+			returnsGlobalMemo[fn] = g
+			return g
+		}
 	}
 	return nil
 }
@@ -449,6 +542,20 @@ func (e *effectEngine) of(fn *ssa.Function) []Effect {
 					case "sort.Slice", "sort.SliceStable", "sort.Sort", "sort.Stable", "sort.Strings", "sort.Ints", "sort.Float64s",
 						"slices.Sort", "slices.SortFunc", "slices.SortStableFunc", "slices.Reverse":
 						target = in.Call.Args[0]
+					}
+				}
+				// math/big: a method of *big.Float / *big.Int / *big.Rat that returns its receiver
+				// type writes the receiver (z.SetPrec(…), z.Add(x, y), z.Neg(x) …): a store into
+				// the big value the receiver points to
+				if callee := in.Call.StaticCallee(); target == nil && callee != nil && callee.Pkg != nil && callee.Pkg.Pkg.Path() == "math/big" && callee.Signature.Recv() != nil && len(in.Call.Args) > 0 {
+					rt := callee.Signature.Recv().Type()
+					if _, isPtr := rt.(*types.Pointer); isPtr && callee.Signature.Results().Len() >= 1 && types.Identical(callee.Signature.Results().At(0).Type(), rt) {
+						recv := in.Call.Args[0]
+						ef := Effect{Kind: "deref", Owner: namedKey(rt), Fresh: e.fresh(recv)}
+						if g := globalBehind(recv); g != nil {
+							ef.ViaGlobal = g.String()
+						}
+						add(ef, in)
 					}
 				}
 				// a slice of one of our package-level variables handed to a function outside the
